@@ -689,7 +689,7 @@ def check_flags(rng, out):
 
 
 def shards(tier, seed):
-    n = 1600 if tier == "quick" else 20000
+    n = 1600 if tier == "quick" else 100000
     return [{"seed": seed, "shard": i, "layouts": n // NSHARDS, "depth": 3 if tier == "quick" else 4} for i in range(NSHARDS)]
 
 
